@@ -42,7 +42,9 @@ def gen_case(rng):
             ref, pred = ref.reshape(L), pred.reshape(L)
     else:
         pred, ref = gen.pair(rng, hi=8, max_obj=5, allow_empty=False)
-    return pred, ref
+    # the same maps stored in any unsigned width (a 64-bit map is the one dtype that `astype(np.uint64)` need not copy)
+    dt = rng.choice([np.uint8, np.uint8, np.uint16, np.uint32, np.uint64, np.uint64])
+    return pred.astype(dt), ref.astype(dt)
 
 
 def matcher_cfg(metric, thr, m2o):
@@ -52,9 +54,10 @@ def matcher_cfg(metric, thr, m2o):
 def run_impl(pred, ref, metric, thr, m2o):
     m = NaiveThresholdMatching(matching_metric=impl.METRICS[metric], matching_threshold=thr[0] / thr[1],
                                allow_many_to_one=m2o)
-    up = UnmatchedInstancePair(pred, ref)
+    # every library call gets arrays of its own: one that writes into its arguments must not reach the oracle's copy
+    up = UnmatchedInstancePair(pred.copy(), ref.copy())
     with quiet():
-        pairs = F._calc_matching_metric_of_overlapping_labels(pred, ref, up.ref_labels, impl.METRICS[metric])
+        pairs = F._calc_matching_metric_of_overlapping_labels(pred.copy(), ref.copy(), up.ref_labels, impl.METRICS[metric])
         try:
             lm = m._match_instances(up)
             lmap = {int(k): int(v) for k, v in lm.labelmap.items()}
@@ -99,7 +102,7 @@ def reported_assignment(pred, ref, metric, thr, m2o, lmap):
 
 
 def one_case(ctx, pred, ref, metric, thr, m2o, src, check_monotone=True):
-    inp = {"shape": list(pred.shape), "pred": gen.arr_json(pred), "ref": gen.arr_json(ref), "metric": metric,
+    inp = {"shape": list(pred.shape), "dtype": str(pred.dtype), "pred": gen.arr_json(pred), "ref": gen.arr_json(ref), "metric": metric,
            "thr": list(thr), "m2o": m2o, "src": src}
     if not pred.any() or not ref.any():
         return
@@ -347,6 +350,7 @@ def replay(ctx, rec):
     if "recipe" in i:
         scale_case(ctx, i["recipe"], "replay")
         return
-    pred = np.array(i["pred"], dtype=np.uint32).reshape(i["shape"])
-    ref = np.array(i["ref"], dtype=np.uint32).reshape(i["shape"])
+    dt = np.dtype(i.get("dtype", "uint32"))
+    pred = np.array(i["pred"], dtype=dt).reshape(i["shape"])
+    ref = np.array(i["ref"], dtype=dt).reshape(i["shape"])
     one_case(ctx, pred, ref, i["metric"], tuple(i["thr"]), i["m2o"], "replay")
